@@ -1,5 +1,7 @@
 # -*- coding: utf-8 -*-
 
+import copy
+
 from vsg import parser, violation
 from vsg.rule_group import structure
 from vsg.rules import utils as rules_utils
@@ -84,11 +86,11 @@ class insert_token_right_of_possible_tokens_if_it_does_not_exist_before_token(st
         else:
             dAction = oViolation.get_action()
             if isinstance(lTokens[0], parser.close_parenthesis) and dAction["carriage_return"]:
-                rules_utils.insert_token(lTokens, 1, self.oInsertToken)
+                rules_utils.insert_token(lTokens, 1, copy.deepcopy(self.oInsertToken))
             elif isinstance(lTokens[0], parser.close_parenthesis) and not dAction["whitespace"]:
                 rules_utils.insert_whitespace(lTokens, 1)
-                rules_utils.insert_token(lTokens, 1, self.oInsertToken)
+                rules_utils.insert_token(lTokens, 1, copy.deepcopy(self.oInsertToken))
             else:
-                rules_utils.insert_token(lTokens, 1, self.oInsertToken)
+                rules_utils.insert_token(lTokens, 1, copy.deepcopy(self.oInsertToken))
                 rules_utils.insert_whitespace(lTokens, 1)
             oViolation.set_tokens(lTokens)
